@@ -315,9 +315,51 @@ func dupAt(s []string, i int) []string {
 	return append(append(append([]string(nil), s[:i+1]...), s[i]), s[i+1:]...)
 }
 
+// hostileTails are fragments that leave the lexer in the middle of something when the input ends right behind them.
+var hostileTails = []string{"\"", "\"abc", "\"\"", "\"a\"", "[", "[2", "[2..", "[2..3", "[ ", "<", "<A", "<A \"", "<A \"x", "<L", "<L <", "//", "/", "// c", ".", "..", "...", "...[", "...[1",
+	"-", "+", "0x", "0b", "1e", "1e+", "1.", "\\", "\xc3", "\xe4\xb8", "\x00", "S", "S1", "S1F", "S1F1", "S1F1 W", "S1F1 [W", "S1F1 H-", "S1F1 H<-", "S1F1 H->E", "W", "[W", "x", "x[", "x[1", "T", "é", ">"}
+
+// genHostileTail renders valid messages, ends the text right behind some token - with raised weight behind a closing
+// bracket or a terminator, i.e. between items / messages - and appends one fragment that is the very end of the input.
+func genHostileTail(t *rapid.T) string {
+	sp := &rapidSpeller{t: t, sizes: rapid.Bool().Draw(t, "withSizes")}
+	n := rapid.IntRange(1, 2).Draw(t, "nmsgs")
+	_, toks := genSMLMessages(t, n, sp, treeOpts{Vars: true, Ellipsis: true, Suffix: true, NoDeep: true, MaxDepth: 3})
+	var all []model.Tok
+	for i := range toks {
+		all = append(all, toks[i]...)
+	}
+	ls := genLayout(t, all, true, false, true)
+	ls.Inner = nil
+	cut := rapid.IntRange(1, len(all)).Draw(t, "cutAfter")
+	if want := rapid.SampledFrom([]string{"", ">", ">", "."}).Draw(t, "cutBehind"); want != "" {
+		var at []int
+		for i, tk := range all {
+			if tk.Text == want {
+				at = append(at, i+1)
+			}
+		}
+		if len(at) > 0 {
+			// the last ones are the top-level bracket of the last message and its terminator
+			k := rapid.IntRange(0, len(at)-1).Draw(t, "which")
+			if rapid.Bool().Draw(t, "lastOne") {
+				k = len(at) - 1
+			}
+			cut = at[k]
+		}
+	}
+	s, _ := render(all[:cut], layoutSpec{Seps: ls.Seps, Comments: ls.Comments, Glue: ls.Glue})
+	if j := strings.LastIndex(s, all[cut-1].Text); j >= 0 {
+		s = s[:j+len(all[cut-1].Text)]
+	}
+	return s + rapid.SampledFrom([]string{"", " ", " ", "\n", "\t", "\r\n"}).Draw(t, "tailSep") + rapid.SampledFrom(hostileTails).Draw(t, "hostileTail")
+}
+
 func genC06(t *rapid.T) c06Case {
 	switch rapid.IntRange(0, 9).Draw(t, "class") {
-	case 0, 1, 2, 3:
+	case 3:
+		return mkC06(genHostileTail(t), "hostile-tail", nil)
+	case 0, 1, 2:
 		return mkC06(genSoup(t), "soup", nil)
 	case 4:
 		return mkC06(genNesting(t), "nesting", nil)
